@@ -2,7 +2,9 @@ package rules
 
 import (
 	"go/ast"
+	"go/token"
 	"go/types"
+	"sort"
 
 	"arkverif/checker/core"
 )
@@ -362,4 +364,186 @@ func calleeResultFresh(m *core.Model, cal *core.Func, i, depth int) bool {
 		return true
 	})
 	return ok && n > 0
+}
+
+// construction is one place where a value of a named struct type is built: a composite literal, possibly completed by
+// field assignments to the local it initialises, or a zero-valued local (`var v T`) filled by field assignments.
+type construction struct {
+	typ    string              // named type
+	node   ast.Node            // the literal or the declaring identifier
+	fields map[string]ast.Expr // field key (of the type itself and of embedded/nested struct fields) -> value
+}
+
+// constructionsOf lists the constructions in f (function literals excluded).
+func constructionsOf(m *core.Model, f *core.Func) []construction {
+	var out []construction
+	var addLit func(cn *construction, cl *ast.CompositeLit)
+	addLit = func(cn *construction, cl *ast.CompositeLit) {
+		for _, e := range cl.Elts {
+			kv, ok := e.(*ast.KeyValueExpr)
+			if !ok {
+				continue
+			}
+			if k := litFieldKey(m, kv); k != "" {
+				cn.fields[k] = kv.Value
+			}
+			v := ast.Unparen(kv.Value)
+			if u, ok := v.(*ast.UnaryExpr); ok && u.Op == token.AND {
+				v = ast.Unparen(u.X)
+			}
+			if inner, ok := v.(*ast.CompositeLit); ok {
+				if _, isStruct := m.Info.TypeOf(inner).Underlying().(*types.Struct); isStruct {
+					addLit(cn, inner)
+				}
+			}
+		}
+	}
+	// field stores through a local: v.f = e, v.a.b = e
+	stores := map[*types.Var][][2]ast.Expr{}
+	core.InspectNoLits(f.Body, func(n ast.Node) bool {
+		as, ok := n.(*ast.AssignStmt)
+		if !ok || len(as.Lhs) != len(as.Rhs) {
+			return true
+		}
+		for i, l := range as.Lhs {
+			sel, ok := ast.Unparen(l).(*ast.SelectorExpr)
+			if !ok || m.FieldOf(sel) == nil {
+				continue
+			}
+			var root ast.Expr = sel.X
+			for {
+				if s2, ok := ast.Unparen(root).(*ast.SelectorExpr); ok && m.FieldOf(s2) != nil {
+					root = s2.X
+					continue
+				}
+				break
+			}
+			if id, ok := ast.Unparen(root).(*ast.Ident); ok {
+				if v, ok := m.Info.ObjectOf(id).(*types.Var); ok && !v.IsField() {
+					stores[v] = append(stores[v], [2]ast.Expr{sel, as.Rhs[i]})
+				}
+			}
+		}
+		return true
+	})
+	complete := func(cn *construction, v *types.Var) {
+		for _, st := range stores[v] {
+			cn.fields[m.FieldKey(m.FieldOf(st[0].(*ast.SelectorExpr)))] = st[1]
+		}
+	}
+	structName := func(t types.Type) string {
+		if p, ok := t.(*types.Pointer); ok {
+			t = p.Elem()
+		}
+		if _, ok := t.Underlying().(*types.Struct); !ok {
+			return ""
+		}
+		return core.NamedName(t)
+	}
+	litVar := map[*ast.CompositeLit]*types.Var{}
+	core.InspectNoLits(f.Body, func(n ast.Node) bool {
+		switch x := n.(type) {
+		case *ast.AssignStmt:
+			if x.Tok == token.DEFINE && len(x.Lhs) == len(x.Rhs) {
+				for i, r := range x.Rhs {
+					r = ast.Unparen(r)
+					if u, ok := r.(*ast.UnaryExpr); ok && u.Op == token.AND {
+						r = ast.Unparen(u.X)
+					}
+					if cl, ok := r.(*ast.CompositeLit); ok {
+						if id, ok := x.Lhs[i].(*ast.Ident); ok {
+							if v, ok := m.Info.ObjectOf(id).(*types.Var); ok {
+								litVar[cl] = v
+							}
+						}
+					}
+				}
+			}
+		case *ast.DeclStmt:
+			gd, ok := x.Decl.(*ast.GenDecl)
+			if !ok || gd.Tok != token.VAR {
+				return true
+			}
+			for _, sp := range gd.Specs {
+				vs, ok := sp.(*ast.ValueSpec)
+				if !ok || len(vs.Values) != 0 {
+					continue
+				}
+				for _, id := range vs.Names {
+					v, ok := m.Info.ObjectOf(id).(*types.Var)
+					if !ok || structName(v.Type()) == "" || len(stores[v]) == 0 {
+						continue
+					}
+					cn := construction{typ: structName(v.Type()), node: id, fields: map[string]ast.Expr{}}
+					complete(&cn, v)
+					out = append(out, cn)
+				}
+			}
+		}
+		return true
+	})
+	core.InspectNoLits(f.Body, func(n ast.Node) bool {
+		cl, ok := n.(*ast.CompositeLit)
+		if !ok {
+			return true
+		}
+		name := structName(m.Info.TypeOf(cl))
+		if name == "" {
+			return true
+		}
+		cn := construction{typ: name, node: cl, fields: map[string]ast.Expr{}}
+		addLit(&cn, cl)
+		if v := litVar[cl]; v != nil {
+			complete(&cn, v)
+		}
+		out = append(out, cn)
+		return true
+	})
+	sort.Slice(out, func(i, j int) bool { return out[i].node.Pos() < out[j].node.Pos() })
+	return out
+}
+
+// loopOverAll reports whether loop visits every element of the slice field with the given key: a range over the field,
+// or a counting loop from 0 up to its length. It returns the loop body.
+func loopOverAll(m *core.Model, loop ast.Node, key string) (*ast.BlockStmt, bool) {
+	switch l := loop.(type) {
+	case *ast.RangeStmt:
+		if fieldKeyOf(m, l.X) == key {
+			return l.Body, true
+		}
+		// range over the length: for i := range len(xs)
+		if call, ok := ast.Unparen(m.Inline(m.StripConv(l.X))).(*ast.CallExpr); ok && m.IsBuiltin(call, "len") && len(call.Args) == 1 && fieldKeyOf(m, call.Args[0]) == key {
+			return l.Body, true
+		}
+	case *ast.ForStmt:
+		be, ok := ast.Unparen(l.Cond).(*ast.BinaryExpr)
+		if !ok || be.Op != token.LSS {
+			return nil, false
+		}
+		iv := identOf(be.X)
+		if iv == nil {
+			return nil, false
+		}
+		call, ok := ast.Unparen(m.Inline(m.StripConv(be.Y))).(*ast.CallExpr)
+		if !ok || !m.IsBuiltin(call, "len") || len(call.Args) != 1 || fieldKeyOf(m, call.Args[0]) != key {
+			return nil, false
+		}
+		// starts at zero, steps by one
+		zero := false
+		if as, ok := l.Init.(*ast.AssignStmt); ok {
+			for i, lh := range as.Lhs {
+				if id := identOf(lh); id != nil && m.Info.ObjectOf(id) == m.Info.ObjectOf(iv) && i < len(as.Rhs) {
+					if tv, ok := m.Info.Types[as.Rhs[i]]; ok && tv.Value != nil && tv.Value.String() == "0" {
+						zero = true
+					}
+				}
+			}
+		}
+		inc, ok := l.Post.(*ast.IncDecStmt)
+		if !zero || !ok || inc.Tok != token.INC || identOf(inc.X) == nil || m.Info.ObjectOf(identOf(inc.X)) != m.Info.ObjectOf(iv) {
+			return nil, false
+		}
+		return l.Body, true
+	}
+	return nil, false
 }
